@@ -18,13 +18,15 @@ import re
 import shutil
 
 from harness import common as C
+from harness import xcheck as X
 from harness import dtypeslib as D
 from harness import frames as F
 from harness import rt as RT
 
 TRUSTED = [
     "Coq 8.16.1 kernel + coqc (vm_compute for the finite case analyses over the dtype tables); no native_compute",
-    "extraction: ExtrOcamlBasic only, no Extract Constant; ocaml/driver.ml s-expression I/O",
+    "extraction: ExtrOcamlBasic only, no Extract Constant; ocaml/driver.ml s-expression I/O (20 sampled pqref conversations per run are "
+    "re-evaluated by the kernel: extract_agrees_k, harness/xcheck.py)",
     "translators/tables2coq.py (dumps converted_types.simple/complex/nullable/pandas_nullable, writer.typemap/revmap, "
     "encoding.DECODE_TYPEMAP and numpy's reading of the numpy_type texts as Gallina, sorted by key)",
     "harness/dtypeslib.py: the map between numpy/pandas dtype objects (or dtype texts) and the model's dtype universe; "
@@ -508,7 +510,7 @@ def run(ctx):
     except Exception as e:        # noqa  fail closed: hand-written `pinned` + correspondence only
         ctx.extra["translator"] = "translator_fallback: %s: %s" % (type(e).__name__, str(e)[:300])
         ctx.notes.append(ctx.extra["translator"])
-    pq = C.Pqref()
+    pq = X.RecPqref(ctx.rng)
     rng = ctx.rng
     ctx.rule = ("datasets: (a) frames of C01 (harness/frames.py: every dtype kind x null patterns, sizes 0..257, optional index incl. "
                 "nullable/tz/categorical index kinds) written by the real writer under the option tuples of harness/rt.py (row-group offsets, "
@@ -587,6 +589,7 @@ def run(ctx):
             case["ropts"] = gen_ropts(rng, pf0) if k else {"columns": None, "categories": None, "index": None, "dtypes": None, "invalid_categories": False}
             case["pn"] = (rng.random() < 0.5) if k else True
             one(case, path, orig)
+    X.kernel_crosscheck(ctx, pq)
     pq.close()
     ctx.extra["write_errors"] = werr
     if werr > len(sources) // 4:
